@@ -1,9 +1,10 @@
 (* C01 -- save then load reproduces the trajectory; files hold native-unit numbers an independent
    reader extracts.  Only statements, closed by [exact], and Print Assumptions.
    Model: Codec/Model.v (+ Gen/CodecTables.v regenerated from /repo); lemmas: Codec/*Proofs.v. *)
-From Coq Require Import ZArith Ascii String Bool List.
+From Coq Require Import ZArith Ascii String Bool List Lia.
 Import ListNotations.
 Require Import MD.Gen.CodecTables MD.Codec.Model MD.Codec.Proofs MD.Codec.RestartProofs.
+Require Import MD.Codec.XtcModel MD.Codec.XtcProofs MD.Codec.XtcFrameProofs.
 Open Scope Z_scope.
 
 (* Python "%w.pf" % x followed by float(): for EVERY width, precision and binary number the reader gets
@@ -68,6 +69,49 @@ Theorem restart_nocell_current_refuted :
     (2 <= length frames)%nat /\ save_restart (C := nat) RstCur false None frames = None.
 Proof. exact RestartProofs.restart_nocell_current_refuted. Qed.
 Print Assumptions restart_nocell_current_refuted.
+
+(* ---------------------------------------------------------------- XTC integer codec (xdrfile.c) *)
+(* a value written in n bits (most significant first) is read back, for every value that fits *)
+Theorem bits_roundtrip : forall n v rest, 0 <= v < 2 ^ Z.of_nat n ->
+  get_bits n (bits_of n v ++ rest) = Some (v, rest).
+Proof. exact XtcProofs.bits_roundtrip. Qed.
+Print Assumptions bits_roundtrip.
+
+(* decodeints inverts encodeints (mixed radix, multi-byte layout) whenever the group fits the bits used *)
+Theorem ints_roundtrip : forall nbits s0 sr n0 nr rest,
+  in_sizes sr nr -> 0 <= n0 -> 0 <= nbits <= 320 ->
+  mixed_radix (s0 :: sr) (n0 :: nr) < 2 ^ nbits ->
+  decodeints nbits (s0 :: sr) (encodeints nbits (s0 :: sr) (n0 :: nr) ++ rest) = Some (n0 :: nr, rest).
+Proof. exact XtcProofs.ints_roundtrip. Qed.
+Print Assumptions ints_roundtrip.
+
+(* sizeofints: the bit count the C code computes is enough for every group below the sizes *)
+Theorem sizeofints_sufficient : forall sizes nums, in_sizes sizes nums ->
+  0 <= mixed_radix sizes nums < 2 ^ sizeofints sizes.
+Proof. exact XtcProofs.sizeofints_sufficient. Qed.
+Print Assumptions sizeofints_sufficient.
+
+(* small groups use smallidx itself as the bit count: valid for every entry of magicints[] from FIRSTIDX on
+   (statement about the table found in xdrfile.c today; re-proved whenever the translator sees another table) *)
+Theorem smallidx_bits_sufficient : forall i, xtc_firstidx <= i < lastidx -> magic i ^ 3 <= 2 ^ i /\ 0 < magic i.
+Proof. exact XtcProofs.magic_cube. Qed.
+Print Assumptions smallidx_bits_sufficient.
+
+(* the frame codec: for every list of integer triples (any number of atoms, any pattern of runs of small
+   differences, every adaptive change of smallidx) that the encoder accepts, the decoder returns exactly that
+   list from the bytes the encoder produced *)
+Theorem xtc_frame_roundtrip : forall cs p, xtc_encode cs = Some p ->
+  xtc_decode (Z.of_nat (length cs)) p = Some cs.
+Proof. exact XtcFrameProofs.xtc_frame_roundtrip. Qed.
+Print Assumptions xtc_frame_roundtrip.
+
+(* non-vacuity: twelve atoms with a run of close atoms (a "water") are accepted by the encoder *)
+Example xtc_encode_accepts :
+  exists p, xtc_encode [(100, 200, 300); (105, 203, 298); (98, 199, 305); (1500, -2200, 40); (1503, -2195, 44);
+                        (-700, 900, 1200); (-702, 905, 1190); (-695, 898, 1207); (2000, 2100, 2200);
+                        (2004, 2098, 2203); (0, 0, 0); (5, -3, 2)] = Some p /\ (1 <= length (xp_bytes p))%nat.
+Proof. eexists. split; [vm_compute; reflexivity|cbn; lia]. Qed.
+Print Assumptions xtc_encode_accepts.
 
 (* non-vacuity: a float32 (0.3f = 10066330 * 2^-25) in an 8.3 field *)
 Example fmt_in_range_example :
